@@ -232,10 +232,20 @@ impl Inp {
     }
 }
 
-#[derive(Debug, Clone, Default, PartialEq, Eq)]
+#[derive(Debug, Clone, Default)]
 pub struct InpInternPool {
     store: IndexSet<Inp>,
 }
+
+// InpIds are indexes into the pool, so two pools are interchangeable only if they hold the same
+// inputs *in the same order* (IndexSet's own equality ignores the order).
+impl PartialEq for InpInternPool {
+    fn eq(&self, other: &Self) -> bool {
+        self.store.len() == other.store.len() && self.store.iter().eq(other.store.iter())
+    }
+}
+
+impl Eq for InpInternPool {}
 
 impl std::hash::Hash for InpInternPool {
     fn hash<H: std::hash::Hasher>(&self, state: &mut H) {
